@@ -661,7 +661,7 @@ def r5_local_only(P, rep, ctx):
     fi = P.func(f"{W}.MetadorNode.parent")
     g = guard_aware_cfg(fi)
     tests = [t.idx for t in g.nodes if t.kind == "test" and acl_flag_of_test(t.exprs[0]) == {"local_only"} and not norm(t.exprs[0]).startswith("not ")]
-    upward = [n.idx for n in g.nodes if n.kind == "stmt" and isinstance(n.stmt, ast.Return) and any(is_raw_expr(x) and isinstance(x, ast.Attribute) and x.attr == "parent" for x in walk_local(n.stmt))]
+    upward = [n.idx for n in g.nodes if n.kind in ("stmt", "test") and any(is_raw_expr(x) and isinstance(x, ast.Attribute) and x.attr in ("parent", "file") for e in n.exprs if e is not None for x in walk_local(e))]
     if not upward:
         raise AnalysisError("C15.R5: raw parent access not found in MetadorNode.parent")
     ok = bool(tests) and all(u not in g.reach([b for b, lab in g.succ[t] if lab == "T"]) for t in tests for u in upward) and all(g.every_path_passes(tests, u) for u in upward)
